@@ -31,7 +31,7 @@ type vpC10Req struct {
 	Proto        string   // "HTTP/1.1" | "HTTP/1.0"
 	ConnLines    []string // values of Connection field lines
 	HandlerClose bool
-	CloseVia     int  // how the handler asks for close: 0 SetConnectionClose, 1 Header.Set, 2 Header.Add, 3 Header.SetBytesKV, with the field name spelled as in CloseName
+	CloseVia     int  // how the handler asks for close: 0 SetConnectionClose, 1 Header.Set, 2 Header.Add, 3 Header.SetBytesKV, with the field name spelled as in CloseName; 4-7 on a Response of its own that it hands over by CopyTo (4, 5) or TimeoutErrorWithResponse (6, 7)
 	CloseName    string
 	Timeout      bool // the handler answers through ctx.TimeoutError (the server then swaps in a fresh RequestCtx)
 }
@@ -88,6 +88,26 @@ func vpC10RunServer(cfg vpC10Cfg, reqs []vpC10Req) (steps []vpC10Step, fail stri
 					ctx.Response.Header.Add(reqs[i].CloseName, "close")
 				case 3:
 					ctx.Response.Header.SetBytesKV([]byte(reqs[i].CloseName), []byte("close"))
+				case 4, 5, 6, 7:
+					// the handler prepares its answer in a Response of its own, asks for close there, and hands it over:
+					// by copy (4, 5) or as the response of a timeout (6, 7)
+					var own Response
+					own.SetBodyString(fmt.Sprintf("r%d", i))
+					if reqs[i].CloseVia%2 == 0 {
+						own.SetConnectionClose()
+					} else {
+						own.Header.Set(reqs[i].CloseName, "close")
+					}
+					if reqs[i].CloseVia <= 5 {
+						own.CopyTo(&ctx.Response)
+						if reqs[i].Timeout {
+							ctx.TimeoutErrorWithCode(fmt.Sprintf("t%d", i), 503)
+						}
+					} else {
+						own.SetStatusCode(503)
+						ctx.TimeoutErrorWithResponse(&own)
+					}
+					return
 				default:
 					ctx.SetConnectionClose()
 				}
@@ -163,8 +183,8 @@ func vpC10RunServer(cfg vpC10Cfg, reqs []vpC10Req) (steps []vpC10Step, fail stri
 			st.MustClose, st.Why = true, "DisableKeepalive"
 		case cfg.MaxReqs > 0 && i+1 >= cfg.MaxReqs:
 			st.MustClose, st.Why = true, "MaxRequestsPerConn reached"
-		case r.HandlerClose && !r.Timeout: // a timeout response replaces everything the handler set on its response
-			st.MustClose, st.Why = true, "handler called SetConnectionClose"
+		case r.HandlerClose && (!r.Timeout || r.CloseVia >= 6): // a timeout response replaces everything the handler set on ctx.Response
+			st.MustClose, st.Why = true, fmt.Sprintf("the handler asked for close (way %d)", r.CloseVia)
 		}
 		steps = append(steps, st)
 		saysClose := vpC10HasToken(st.RespConn, "close")
@@ -273,11 +293,11 @@ func TestVP_C10_Server(t *testing.T) {
 			}
 			r.HandlerClose = rapid.IntRange(0, 7).Draw(t, "hclose") == 0
 			if r.HandlerClose {
-				r.CloseVia = rapid.IntRange(0, 3).Draw(t, "closeVia")
+				r.CloseVia = rapid.IntRange(0, 7).Draw(t, "closeVia")
 				r.CloseName = rapid.SampledFrom([]string{"Connection", "Connection", "connection", "CONNECTION", "conNECtion"}).Draw(t, "closeName")
 			}
 			r.Timeout = rapid.IntRange(0, 4).Draw(t, "timeout") == 0
-			if vpC10HasToken(r.ConnLines, "close") || (r.HandlerClose && !r.Timeout) || (r.Proto == "HTTP/1.0" && !vpC10HasToken(r.ConnLines, "keep-alive")) {
+			if vpC10HasToken(r.ConnLines, "close") || (r.HandlerClose && (!r.Timeout || r.CloseVia >= 6)) || (r.Proto == "HTTP/1.0" && !vpC10HasToken(r.ConnLines, "keep-alive")) {
 				causes++
 			}
 			reqs = append(reqs, r)
